@@ -343,8 +343,9 @@ def check_circle(case):
 def circle_cases():
     out = []
     for (lo, la) in [(10.0, 0.0), (123.0, 45.0), (359.9999, -30.0), (0.0, 80.0), (200.0, -60.0)]:
-        for s1 in (1e-3, 0.1, 1.0, 5.0):
-            for s2 in (1e-3, 0.05, 0.7, 4.0):
+        for s1, s2 in [(a, b) for a in (1e-3, 0.1, 1.0, 5.0) for b in (1e-3, 0.05, 0.7, 4.0)] + \
+                [(1e-5, 1e-5), (1e-5, 2e-5), (5e-5, 3e-5), (5e-5, 6e-5), (2e-4, 2e-4), (2e-4, 1e-4), (3e-6, 3e-6)]:
+            if True:
                 for pa1, pa2 in ((0.0, 90.0), (37.0, 200.0), (10.0, 15.0), (90.0, 270.0), (0.0, 60.0)):
                     out.append({"lon": lo, "lat": la, "s1": s1, "pa1": pa1, "s2": s2, "pa2": pa2})
     return out
@@ -549,7 +550,10 @@ def out_seam_cases():
         kf, kb = PAIRS[pair][0], PAIRS[pair][1]
         for par in pars:
             for direction, k_fwd, k_inv in (("forward_first", kf, kb), ("backward_first", kb, kf)):
-                for q in (0.0, 90.0, 180.0, 270.0):
+                # the quadrant boundaries of the result, and (galactic pair) of the auxiliary angle the result is
+                # an offset of: l = 303 - x, alpha = x' + 12.25
+                for q in (0.0, 90.0, 180.0, 270.0) + ((33.0, 123.0, 213.0, 303.0, 12.25, 102.25, 192.25, 282.25)
+                                                      if pair == "galactic" else ()):
                     for d in OUT_DELTAS:
                         for B in OUT_LATS:
                             lo, la = image(k_inv, q + d, B, par)
